@@ -443,11 +443,26 @@ def run_z3(chk, tier):
         try:
             fn, assume, (v, n, v2, n2) = z3_condition(op, k1, k2)
             t0 = time.time()
-            for pc, (got, want, tree), run in pysym.explore(fn, assume):
+            for pc, res_, run in pysym.explore(fn, assume):
                 npaths += 1
                 s = z3.Solver()
                 s.set("timeout", 20000)
                 s.add(*pc)
+                if isinstance(res_, pysym.Raised):
+                    # the operator raised although the operands satisfy the stated precondition
+                    r = str(s.check())
+                    chk.q("Q-path", "sat(raises)" if r == "sat" else r, 0.0)
+                    if r == "sat":
+                        m = s.model()
+                        fv = lambda z: float(m.eval(z, model_completion=True).as_fraction()) if z.sort() != z3.IntSort() else m.eval(z, model_completion=True).as_long()
+                        cv, cn, cv2, cn2 = fv(v), fv(n), fv(v2), fv(n2)
+                        ok, code = replay_concrete(op, k1, k2, cv, cn, cv2, cn2)
+                        if ok:
+                            chk.violation(f"lnodes:{op}_{k1}_{k2}:raises", f"lnodes {op} on ({k1},{k2}) with v={cv}, n={cn}, v2={cv2}, n2={cn2} raises {type(res_.exc).__name__}: {res_.exc} although the operands are valid (divisor non-zero)", "#!/verif/.venv/bin/python\n" + code)
+                        else:
+                            chk.inconc(f"lnodes {name}: raising path did not reproduce concretely")
+                    continue
+                got, want, tree = res_
                 s.add(z3.Not(dict_equal_formula(got, want)))
                 r = str(s.check())
                 chk.q("Q-path", r, 0.0)
@@ -495,11 +510,16 @@ mk, pe, padd, pmul, pdiv, same = ns['mk'], ns['pe'], ns['padd'], ns['pmul'], ns[
 from fractions import Fraction
 x = mk({k1!r}, {float(cv)!r}, {int(cn)!r}, 'a'); y = mk({k2!r}, {float(cv2)!r}, {int(cn2)!r}, 'b')
 op = {op!r}
-if op == 'add': r, want = x + y, padd(pe(x), pe(y), 1)
-elif op == 'sub': r, want = x - y, padd(pe(x), pe(y), -1)
-elif op == 'mul': r, want = x * y, pmul(pe(x), pe(y))
-elif op == 'div': r, want = x / y, pdiv(pe(x), pe(y))
-else: r, want = -x, {{m: -c for m, c in pe(x).items()}}
+try:
+    if op == 'add': r, want = x + y, padd(pe(x), pe(y), 1)
+    elif op == 'sub': r, want = x - y, padd(pe(x), pe(y), -1)
+    elif op == 'mul': r, want = x * y, pmul(pe(x), pe(y))
+    elif op == 'div': r, want = x / y, pdiv(pe(x), pe(y))
+    else: r, want = -x, {{m: -c for m, c in pe(x).items()}}
+except Exception as e:
+    print('operands', x, y, ': raised', type(e).__name__, e)
+    print('REPRODUCED')
+    sys.exit(1)
 got = pe(r)
 bad = False
 for m in set(got) | set(want):
